@@ -359,7 +359,6 @@ func c10Scenario(r *Run, idx int, cs c10Case) {
 	r.Sample(8, map[string]any{"case": cs, "ops_completed": ops.Load(), "close_returned": closeReturned, "all_calls_returned": terminated})
 }
 
-
 // c10MassOps: far more in-flight writes of ONE kind than the write queue holds when Close lands -
 // 3000 goroutines, each issuing a single operation that sends exactly one event (a new key, an
 // update of a resident key, or a Delete of a resident key), while maintenance is stalled in a
